@@ -1,4 +1,8 @@
 pub mod c01;
+pub mod c02;
+pub mod c03;
+pub mod c08;
+pub mod c15;
 pub mod c04;
 pub mod c09;
 pub mod c13;
@@ -11,6 +15,10 @@ use std::sync::Arc;
 pub fn dispatch(args: &Args, rep: &Arc<Report>) -> bool {
     match args.prop.to_lowercase().as_str() {
         "c01" => c01::run(args, rep),
+        "c02" => c02::run(args, rep),
+        "c03" => c03::run(args, rep),
+        "c08" => c08::run(args, rep),
+        "c15" => c15::run(args, rep),
         "c04" => c04::run(args, rep),
         "c09" => c09::run(args, rep),
         "c13" => c13::run(args, rep),
